@@ -784,6 +784,9 @@ impl DirectAddrUpdateState {
     /// Schedules a new run, either starting it immediately if none is running or
     /// scheduling it for later.
     fn schedule_run(&mut self, why: UpdateReason, if_state: IfStateDetails) {
+        // the lock attempt, the decision and its trace records are one atomic trace section
+        #[cfg(iroh_verif)]
+        let _section = crate::verif_hooks::pause::trace::section();
         match self.net_reporter.clone().try_lock_owned() {
             Ok(net_reporter) => {
                 #[cfg(iroh_verif)]
@@ -800,6 +803,8 @@ impl DirectAddrUpdateState {
 
     /// If another run is needed, triggers this run, otherwise does nothing.
     fn try_run(&mut self, if_state: IfStateDetails) {
+        #[cfg(iroh_verif)]
+        let _section = crate::verif_hooks::pause::trace::section();
         match self.net_reporter.clone().try_lock_owned() {
             Ok(net_reporter) => {
                 if let Some(why) = self.want_update.take() {
@@ -883,13 +888,18 @@ impl DirectAddrUpdateState {
                 {
                     crate::verif_hooks::pause::trace::event(|| "reported".to_string());
                     crate::verif_hooks::pause::gate::pass("direct_addr:reported").await;
-                    // traced before the drop: whatever observes the free lock is traced later
-                    crate::verif_hooks::pause::trace::event(|| "releasing".to_string());
                 }
+                // the drop and its trace record are one atomic trace section
+                #[cfg(iroh_verif)]
+                let section = crate::verif_hooks::pause::trace::section();
+                #[cfg(iroh_verif)]
+                crate::verif_hooks::pause::trace::event(|| "releasing".to_string());
                 // Release the net reporter before signalling: the actor reacts to the
                 // signal with `try_run`, which needs the lock to start an update that was
                 // requested while this run was in flight.
                 drop(net_reporter);
+                #[cfg(iroh_verif)]
+                drop(section);
                 #[cfg(iroh_verif)]
                 {
                     crate::verif_hooks::pause::gate::pass("direct_addr:released").await;
